@@ -46,8 +46,8 @@ Fixpoint fql_eqb (a b : list fq) : bool :=
 Definition obs_relb (sr : Z) (x y : obs Q fq) : bool :=
   match x, y with
   | OOut f1 s1 e1, OOut f2 s2 e2 => fql_eqb f1 f2 && (s1 =? s2) && Bool.eqb e1 e2
-  | OPos px idx fp _, OPos py cur fp' avail =>
-      Qeq_bool fp fp' && Qeq_bool px (ndiv (nofZ idx) (nofZ sr)) && Qeq_bool py (ndiv (nadd (nofZ cur) fp) (nofZ sr))
+  | OPos px st idx fp _, OPos py st' cur fp' avail =>
+      (st =? st') && Qeq_bool fp fp' && Qeq_bool px (ndiv (nofZ idx) (nofZ sr)) && Qeq_bool py (ndiv (nadd (nofZ cur) fp) (nofZ sr))
       && ((avail <? 2) || (cur =? idx))
   | _, _ => false
   end.
@@ -63,9 +63,9 @@ Lemma fql_eqb_refl : forall l, fql_eqb l l = true.
 Proof. induction l as [|[a b] l IH]; [reflexivity|]. cbn. unfold fq_eqb. cbn. now rewrite !Qeq_bool_refl', IH. Qed.
 Lemma obs_relb_complete : forall sr x y, obs_rel fq sr x y -> obs_relb sr x y = true.
 Proof.
-  intros sr x y H. destruct H as [frames st fin | px py idx cur fp avail Hx Hy Hc].
+  intros sr x y H. destruct H as [frames st fin | px py st idx cur fp avail Hx Hy Hc].
   - cbn. rewrite fql_eqb_refl, Z.eqb_refl, Bool.eqb_reflx. reflexivity.
-  - cbn [obs_relb]. subst px py. rewrite !Qeq_bool_refl'. cbn [andb].
+  - cbn [obs_relb]. subst px py. rewrite Z.eqb_refl, !Qeq_bool_refl'. cbn [andb].
     destruct (Z.ltb_spec avail 2); [reflexivity|]. rewrite (Hc ltac:(lia)), Z.eqb_refl. reflexivity.
 Qed.
 Lemma all2_complete : forall sr xs ys, Forall2 (obs_rel fq sr) xs ys -> all2 (obs_relb sr) xs ys = true.
@@ -168,8 +168,8 @@ Lemma negative_zero_witness :
   exists l1 l2, run negzero_case = l1 ++ 777777 :: l2 /\ ~ In 777777 l1 /\ l1 <> l2.
 Proof.
   cbv zeta. split; [vm_compute; reflexivity|]. split; [vm_compute; reflexivity|]. split; [vm_compute; reflexivity|].
-  exists [0; 4602678819172646912; 1077936128; 0; 1077780783; 0; 1073741824; 0; 0; 0],
-         [0; 4602678819172646912; 1077936128; 0; 1079955608; 0; 1082130432; 0; 0; 0].
+  exists [0; 4602678819172646912; 0; 1077936128; 0; 1077780783; 0; 1073741824; 0; 0; 0],
+         [0; 4602678819172646912; 0; 1077936128; 0; 1079955608; 0; 1082130432; 0; 0; 0].
   split; [vm_compute; reflexivity|]. split.
   - cbn [In]. intros H. repeat (destruct H as [H|H]; [discriminate H|]). exact H.
   - discriminate.
